@@ -602,6 +602,9 @@ type c08engCase struct {
 	hist []c08ans          // answers to the requests of T, in order
 	down []c08ans          // answers to the requests of the task behind the gateway, in order (default: ok)
 	errWithResults bool    // the error answers also carry results (only judged by this property's own model)
+	// shape of the process: "" = T -> exclusive gateway -> A|B|C; "direct" = conditional flows directly on T
+	// (x == 1 -> A, x != 1 -> B); "loop" = T --[x < 3]--> T, T --[!(x < 3)]--> end, x a declared result of T
+	shape string
 }
 
 func c08okAns(res, objs map[string]int) c08ans { return c08ans{ok: true, results: res, objs: objs} }
@@ -697,6 +700,25 @@ func c08engCases(tier string) []c08engCase {
 		a.objs = map[string]int{"o1": 6, "p": 4}
 		cs = append(cs, c08engCase{tag: "errres", hist: []c08ans{a, c08okAns(map[string]int{"r2": 8}, nil)}, errWithResults: true})
 	}
+	// 9. conditions on the answered task's OWN outgoing flows read the result it has just stored
+	for _, x := range []int{1, 2, 0} {
+		cs = append(cs, c08engCase{tag: "direct", shape: "direct", hist: []c08ans{c08okAns(map[string]int{"x": x, "u": 7}, nil)}})
+	}
+	cs = append(cs, c08engCase{tag: "direct", shape: "direct", hist: []c08ans{c08errAns(1, 2), c08okAns(map[string]int{"x": 1}, nil)}})
+	cs = append(cs, c08engCase{tag: "direct", shape: "direct", hist: []c08ans{c08errAns(2, 0)}})
+	loopOf := func(xs ...int) []c08ans {
+		var h []c08ans
+		for _, x := range xs {
+			h = append(h, c08okAns(map[string]int{"x": x}, nil))
+		}
+		return h
+	}
+	cs = append(cs, c08engCase{tag: "loop", shape: "loop", hist: loopOf(1, 2, 3)})
+	cs = append(cs, c08engCase{tag: "loop", shape: "loop", hist: loopOf(3)})
+	cs = append(cs, c08engCase{tag: "loop", shape: "loop", hist: loopOf(1, 1, 2, 5)})
+	cs = append(cs, c08engCase{tag: "loop", shape: "loop", hist: loopOf(2, 0, 4)})
+	cs = append(cs, c08engCase{tag: "loop", shape: "loop",
+		hist: []c08ans{c08okAns(map[string]int{"x": 1}, nil), c08errAns(1, 1), c08okAns(map[string]int{"x": 2}, nil), c08errAns(2, 0), c08okAns(map[string]int{"x": 3}, nil)}})
 	// 8. a second (and third) answer to the same request: no effect, whatever it carries
 	{
 		first := c08okAns(map[string]int{"r1": 1}, map[string]int{"o1": 2})
@@ -746,6 +768,35 @@ func c08engRandom(rng *rec.Rng) c08engCase {
 		d = append(d, c08errAns(1, int32(rng.Intn(5))-1))
 	}
 	return c08engCase{tag: "random", td: rng.Intn(4), hist: h, down: d}
+}
+
+// c08engXMLShape: the processes whose task carries its conditional flows itself (built with the shared graph builder).
+func c08engXMLShape(shape string, td int) (string, map[string]string) {
+	g := eng.NewGraph()
+	st := g.Add("startEvent", "start", "")
+	t := g.Add("serviceTask", "T", "")
+	t.Results = []string{"x", "r1"}
+	t.HasTaskDef = true
+	t.Retries = td
+	g.Connect(st, t, nil)
+	switch shape {
+	case "direct":
+		a := g.Add("serviceTask", "A", "")
+		b := g.Add("serviceTask", "B", "")
+		en := g.Add("endEvent", "end", "")
+		g.Connect(t, a, &eng.Cond{Op: "eq", Var: "x", K: 1})
+		g.Connect(t, b, &eng.Cond{Op: "ne", Var: "x", K: 1})
+		g.Connect(a, en, nil)
+		g.Connect(b, en, nil)
+	case "loop":
+		a := g.Add("serviceTask", "A", "")
+		en := g.Add("endEvent", "end", "")
+		again := &eng.Cond{Op: "lt", Var: "x", K: 3}
+		g.Connect(t, t, again)
+		g.Connect(t, a, &eng.Cond{Op: "not", L: again})
+		g.Connect(a, en, nil)
+	}
+	return g.XML(), g.CondRPN
 }
 
 func c08engXML(td int) (string, map[string]string) {
@@ -901,9 +952,15 @@ func c08plan(h []c08ans) string {
 
 func c08engRun(out *rec.Out, c c08engCase, stats map[string]int) {
 	xmlText, rpn := c08engXML(c.td)
+	if c.shape != "" {
+		xmlText, rpn = c08engXMLShape(c.shape, c.td)
+	}
 	out.Begin("c08eng", c.tag)
 	defer out.End()
 	varsInt := map[string]int{"r2": 5, "u": 0, "z": 4}
+	if c.shape != "" {
+		varsInt["x"] = 0
+	}
 	vars := map[string]any{}
 	for k, v := range varsInt {
 		vars[k] = v
